@@ -206,4 +206,55 @@ theorem assoc_ext {α β : Type} (f : α → Option β) : ∀ (xs ys : List (α 
       congr 1
       exact ih ys h.2 (fun p hp => hx p (List.mem_cons_of_mem _ hp)) (fun p hp => hy p (List.mem_cons_of_mem _ hp))
 
+/-- the envelope depends only on the set of points -/
+theorem ptsBounds_congr_mem (ps qs : List Pt) (hm : ∀ p, p ∈ ps ↔ p ∈ qs) :
+    ptsBounds ps = ptsBounds qs := by
+  cases hps : ptsBounds ps with
+  | none =>
+    have : ps = [] := (ptsBounds_eq_none ps).mp hps
+    subst this
+    have : qs = [] := by
+      cases qs with
+      | nil => rfl
+      | cons q qs => exact absurd ((hm q).mpr (by simp)) (by simp)
+    subst this; rfl
+  | some b =>
+    cases hqs : ptsBounds qs with
+    | none =>
+      have : qs = [] := (ptsBounds_eq_none qs).mp hqs
+      subst this
+      cases ps with
+      | nil => simp [ptsBounds] at hps
+      | cons p ps => exact absurd ((hm p).mp (by simp)) (by simp)
+    | some b' =>
+      have h1 := isBoundsOf_congr b ps qs hm (ptsBounds_isBoundsOf ps b hps)
+      have h2 := ptsBounds_isBoundsOf qs b' hqs
+      rw [isBoundsOf_unique b b' qs h1 h2]
+
+theorem mem_closeRing (r : List Pt) (p : Pt) : p ∈ closeRing r ↔ p ∈ r := by
+  cases r with
+  | nil => simp [closeRing]
+  | cons a as =>
+    simp only [closeRing]
+    split
+    · simp only [List.mem_append, List.mem_cons, List.not_mem_nil, or_false]
+      constructor
+      · rintro (h | h)
+        · exact h
+        · exact Or.inl h
+      · intro h; exact Or.inl h
+    · rfl
+
+theorem closeRing_of_closed (r : List Pt) (h : ringClosed r = true) : closeRing r = r := by
+  cases r with
+  | nil => rfl
+  | cons a as =>
+    simp only [ringClosed, Bool.and_eq_true, beq_iff_eq, decide_eq_true_eq, List.head?_cons] at h
+    simp only [closeRing]
+    rw [if_neg]
+    intro hc
+    rcases hc with hc | hc
+    · exact hc h.1
+    · omega
+
 end SE.Proofs.Lemmas.Bounds
